@@ -319,6 +319,8 @@ func c10M3U8Soup(r *rand.Rand) []byte {
 	return []byte(b.String())
 }
 
+var c10SiteKeys = []string{"id", "url", "uri", "data", "children", "dist", "permalink", "kind", "media_attachments", "external_video_id", "type", "resourceUrl", "resourceThumbnail", "embedUrl", "username", "acct", "account", "avatar", "header", "fields", "value", "name", "group", "emojis", "preview_url", "remote_url", "meta", "original", "card", "reblog", "quote", "after", "before"}
+
 func c10Bomb(r *rand.Rand) []byte {
 	n := 2000 + r.Intn(20000)
 	switch r.Intn(8) {
@@ -421,7 +423,35 @@ func c10GenCase(seed int64, idx int) c10Case {
 			`{"data":{"children":[{"data":{"permalink":"/r/x/comments/1"}}]}}`, `{"data":{"children":[]}}`, `{"data":null}`, `{"id":"123","media_attachments":[{"external_video_id":"v1"}]}`,
 			`{"resourceUrl":"https://m.example/a.mp4","resourceThumbnail":"t.jpg","embedUrl":"/embed/1","uri":"u"}`, `{"media_attachments":"x"}`, `[]`, `null`, `{"id":{}}`}))
 		c.Kind = "sitespecific-json"
-		if r.Intn(2) == 0 {
+		if r.Intn(3) == 0 {
+			// the keys the site-specific extractors read, each with a value of any JSON type
+			var val func(d int) string
+			val = func(d int) string {
+				switch x := r.Intn(9); {
+				case x == 0:
+					return "null"
+				case x == 1:
+					return pick(r, []string{"0", "-1", "1e400", "3.7", "99999999999999999999"})
+				case x == 2:
+					return pick(r, []string{"true", "false"})
+				case x == 3 && d < 3:
+					return "[" + val(d+1) + "," + val(d+1) + "]"
+				case x == 4 && d < 3:
+					return "[]"
+				case x == 5 && d < 3:
+					return "{" + fmt.Sprintf("%q:%s,%q:%s", pick(r, c10SiteKeys), val(d+1), pick(r, c10SiteKeys), val(d+1)) + "}"
+				default:
+					return fmt.Sprintf("%q", pick(r, []string{"", "abc", "/r/x/comments/1/t/", "https://m.example/a.mp4", "v1", c10HostileText(r)}))
+				}
+			}
+			var kv []string
+			for k := 0; k < 1+r.Intn(6); k++ {
+				kv = append(kv, fmt.Sprintf("%q:%s", pick(r, c10SiteKeys), val(0)))
+			}
+			base = []byte("{" + strings.Join(kv, ",") + "}")
+			c.Kind = "sitespecific-json-key-soup"
+			siteURL = pick(r, []string{"https://www.reddit.com/api/info.json?id=t3_abc", "https://truthsocial.com/api/v1/statuses/123", "https://truthsocial.com/api/v1/accounts/lookup?acct=abc", "https://apipartner.ina.fr/assets/x", "https://truthsocial.com/@user/posts/123"})
+		} else if r.Intn(2) == 0 {
 			// listing shapes with a declared count next to the array it counts: the two are independent
 			// server-controlled fields (count below, equal to, above the number of elements, negative, huge)
 			k := r.Intn(4)
